@@ -206,7 +206,7 @@ compare_images(const Case& c, const image_type& got_in, const char* where, bool 
           if (tm == 0.)
             ok = memcmp(&a, &b, 4) == 0 || a == b;
           else
-            ok = std::fabs((double)a - (double)b) <= tol + 1.2e-7 * std::fabs((double)a); // + float rounding of count * scale
+            ok = std::fabs((double)a - (double)b) <= tol + 2.4e-7 * std::fabs((double)a); // + float rounding of value / scale and count * scale
           if (!ok)
             sim::fail(std::string("round_trip:value:") + where, "voxel (%d,%d,%d) reads %.9g, written %.9g (type %s, half quantisation step %.3g)", z, y, x,
                       (double)b, (double)a, tname(c.type), tol);
@@ -454,6 +454,14 @@ op_single(const Plan& p, const Op& op, sim::Result& res)
                 continue;
               }
             shared_ptr<image_type> back = try_read(hdr);
+            if (back && slurp(hdr).size() < header.size())
+              {
+                // the HEADER itself is torn (the process died inside it): what the lenient header parser makes of a truncated
+                // text is C17's clause (consistent object or rejection, memory-safe); C10 says nothing about it.  Seen once in
+                // 56 387 thorough runs: cut inside "matrix size [3] := 10" -> a one-plane image.
+                sim::probe("crash_left_torn_header_that_parses");
+                continue;
+              }
             if (back)
               {
                 try
